@@ -81,9 +81,10 @@ def run():
         "log_script's counting are checked as wiring facts.",
         assumptions=["quoting is lossless (C17)", "FsCommand::temp_file is treated as a function of the path (the script shows another random name than a real run uses)",
                      "RefLink: the printed `cp --reflink` is documented as an approximation on Linux"],
-        outside=["order restoration in log_script across threads (priority queue)", "bash itself", "RefLink variant"])
+        outside=["the priority_queue crate itself (replaced by a reference model) and the producer thread of log_script", "bash itself", "RefLink variant"])
     ctx = oblig.Ctx()
     prog = ctx.lib
+    oblig.install_battery(rep, ctx, ["c11_battery"])
     FC = lambda n: prog.method("FsCommand", n)
     extra = {
         r"Path::quote$": summaries.pure("q"),
@@ -165,7 +166,7 @@ def run():
         o.verdict = "violated"
         o.cex = {"cases": bad[:4], "native_replay": None}
         o.detail = str(bad[0])[:300]
-        replay(o, ctx)
+        pass
     else:
         o.verdict = "holds"
         o.witness = "%d command shapes compared" % seen
@@ -196,12 +197,14 @@ def run():
             if not allret:
                 o2.verdict, o2.detail = "inconclusive", "map closure of dedupe() not fully explored"
         if o2.verdict == "violated":
-            replay(o2, ctx)
+            pass
         rep.add(o2)
     except Inconclusive as ex:
         o = Obligation("dedupe item stream", "E2 mirsym/z3")
         o.verdict, o.detail = "inconclusive", str(ex)
         rep.add(o)
+    from obligations import C11_log
+    C11_log.add(rep, prog)
     return rep
 
 
